@@ -10,6 +10,7 @@ package cluster
 // Frame.Split yields, once each, in order, and stops only when Split has nothing left.
 
 import (
+	"github.com/emitter-io/emitter/internal/event"
 	"github.com/emitter-io/emitter/internal/message"
 	vs "github.com/emitter-io/emitter/internal/verifspec"
 	"github.com/weaveworks/mesh"
@@ -102,4 +103,102 @@ func post_Peer_psq_chain(p *Peer, old_p Peer) bool {
 				vs.TraceArg[mesh.PeerName](g, 1) == p.name && vs.SameBytes(vs.TraceArg[[]byte](g, 2), vs.TraceRet[[]byte](e, 0)) &&
 				specSameFrame(vs.TraceArg[message.Frame](s2, 0), tail) && vs.TraceArg[int](s2, 1) == maxByteFrameSize
 		})
+}
+
+// ---------------------------------------------------------------------------------------------------------
+// The swarm's side of gossip (properties C13, C14). State (Merge / Add / Del / Has: C04, C13, C14), the payload
+// decoder and the gossip transport are recorded calls. What the swarm adds:
+//   - merge / OnGossip / OnGossipBroadcast pass on EXACTLY what State.Merge returned for the decoded payload (the
+//     delta), or nil for a payload that does not decode, is empty, or is our own broadcast - nothing is merged then;
+//   - Notify (a ban, an unban, a subscription) applies the operation to the LOCAL state first and then broadcasts
+//     one payload holding just that operation (so a ban is in force on this broker when the request is
+//     acknowledged: C14); Contains answers from the local state.
+
+// @ assume github.com/emitter-io/emitter/internal/event.DecodeState iface post=post_DecodeState
+func post_DecodeState(res0 *event.State, res1 error) bool { return res1 != nil || res0 != nil }
+
+// @ assume github.com/emitter-io/emitter/internal/event.NewState iface post=post_NewState fresh
+func post_NewState(res0 *event.State) bool { return res0 != nil }
+
+//@ assume (*github.com/emitter-io/emitter/internal/event.State).Merge iface
+//@ assume (*github.com/emitter-io/emitter/internal/event.State).Subscriptions iface
+//@ assume (*github.com/emitter-io/emitter/internal/event.State).Add iface
+//@ assume (*github.com/emitter-io/emitter/internal/event.State).Del iface
+//@ assume (*github.com/emitter-io/emitter/internal/event.State).Has iface
+//@ assume (github.com/weaveworks/mesh.Gossip).GossipBroadcast iface
+
+func pre_Swarm(s *Swarm) bool {
+	return s != nil && s.state != nil && s.router != nil && s.gossip != nil
+}
+
+// @ verify (*Swarm).merge pre=pre_Swarm post=post_Swarm_merge props=C13
+func post_Swarm_merge(s *Swarm, buf []byte, res0 mesh.GossipData, res1 error) bool {
+	d := vs.TraceFind("DecodeState")
+	if d != 0 || vs.TraceCount("DecodeState") != 1 || !vs.SameBytes(vs.TraceArg[[]byte](d, 0), buf) {
+		return false
+	}
+	if vs.TraceRet[error](d, 1) != nil { // not a payload: nothing merged, the error reported
+		return vs.TraceLen() == 1 && res0 == nil && res1 == vs.TraceRet[error](d, 1)
+	}
+	m := vs.TraceFind("State).Merge")
+	return m == 1 && vs.TraceCount("State).Merge") == 1 && vs.TraceArg[*event.State](m, 0) == s.state &&
+		vs.TraceArg[mesh.GossipData](m, 1) == mesh.GossipData(vs.TraceRet[*event.State](d, 0)) &&
+		res0 == vs.TraceRet[mesh.GossipData](m, 0) && res1 == nil
+}
+
+//@ assume (*Swarm).merge iface for=OnGossip
+//@ assume (*Swarm).merge iface for=OnGossipBroadcast
+
+// @ verify (*Swarm).OnGossip pre=pre_Swarm post=post_Swarm_OnGossip props=C13
+func post_Swarm_OnGossip(s *Swarm, buf []byte, res0 mesh.GossipData, res1 error) bool {
+	if len(buf) <= 1 {
+		return vs.TraceCount("Swarm).merge") == 0 && res0 == nil && res1 == nil
+	}
+	m := vs.TraceFind("Swarm).merge")
+	return m >= 0 && vs.TraceCount("Swarm).merge") == 1 && vs.SameBytes(vs.TraceArg[[]byte](m, 1), buf) &&
+		res0 == vs.TraceRet[mesh.GossipData](m, 0) && res1 == vs.TraceRet[error](m, 1)
+}
+
+// @ verify (*Swarm).OnGossipBroadcast pre=pre_Swarm post=post_Swarm_OnGossipBroadcast props=C13
+func post_Swarm_OnGossipBroadcast(s *Swarm, src mesh.PeerName, buf []byte, res0 mesh.GossipData, res1 error) bool {
+	if src == s.name { // our own broadcast coming back: nothing to merge, nothing to pass on
+		return vs.TraceCount("Swarm).merge") == 0 && res0 == nil && res1 == nil
+	}
+	m := vs.TraceFind("Swarm).merge")
+	return m >= 0 && vs.TraceCount("Swarm).merge") == 1 && vs.SameBytes(vs.TraceArg[[]byte](m, 1), buf) &&
+		res0 == vs.TraceRet[mesh.GossipData](m, 0) && res1 == vs.TraceRet[error](m, 1)
+}
+
+// @ verify (*Swarm).Notify pre=pre_Swarm_Notify post=post_Swarm_Notify props=C14,C13
+func pre_Swarm_Notify(s *Swarm, ev event.Event) bool { return pre_Swarm(s) && ev != nil }
+func post_Swarm_Notify(s *Swarm, ev event.Event, enabled bool) bool {
+	n, b := vs.TraceFind("NewState"), vs.TraceFind("GossipBroadcast")
+	if n < 0 || b < 0 || vs.TraceCount("GossipBroadcast") != 1 || vs.TraceCount("NewState") != 1 {
+		return false
+	}
+	op := vs.TraceRet[*event.State](n, 0)
+	adds, dels := vs.TraceCount("State).Add"), vs.TraceCount("State).Del")
+	var first, second int
+	if enabled {
+		first, second = vs.TraceFindNth("State).Add", 0), vs.TraceFindNth("State).Add", 1)
+		if adds != 2 || dels != 0 {
+			return false
+		}
+	} else {
+		first, second = vs.TraceFindNth("State).Del", 0), vs.TraceFindNth("State).Del", 1)
+		if adds != 0 || dels != 2 {
+			return false
+		}
+	}
+	// the local state first, then the one-operation payload, then the broadcast of exactly that payload
+	return first < second && second < b && vs.TraceArg[*event.State](first, 0) == s.state && vs.TraceArg[event.Event](first, 1) == ev &&
+		vs.TraceArg[*event.State](second, 0) == op && vs.TraceArg[event.Event](second, 1) == ev &&
+		vs.TraceArg[mesh.GossipData](b, 1) == mesh.GossipData(op)
+}
+
+// @ verify (*Swarm).Contains pre=pre_Swarm post=post_Swarm_Contains props=C14
+func post_Swarm_Contains(s *Swarm, ev event.Event, res0 bool) bool {
+	h := vs.TraceFind("State).Has")
+	return h == 0 && vs.TraceLen() == 1 && vs.TraceArg[*event.State](h, 0) == s.state && vs.TraceArg[event.Event](h, 1) == ev &&
+		res0 == vs.TraceRet[bool](h, 0)
 }
